@@ -127,3 +127,65 @@ func Verif_C15_gate() {
 	}
 	verifapi.Assert("no-lock-left-held", verifapi.HeldLocks() == 0)
 }
+
+// Verif_C15_gate_sequence: on one work manager, a command that is allowed (local Unix socket, or a
+// valid token) is followed by the same kind of command for the same unit over TCP without a valid
+// token: the second one is refused and has no effect - an earlier successful verification authorises
+// nothing later.
+func Verif_C15_gate_sequence() {
+	dir := verifapi.TempDir()
+	wk := verifWorkceptor(dir)
+	verifapi.Assert("register", wk.w.RegisterWorker("cmd", verifCmdCfg().NewWorker, true) == nil)
+	wk.w.VerifyingKey = "/keys/pub.pem"
+	thePub := &rsa.PublicKey{E: 65537}
+	verifapi.Redirect("github.com/ansible/receptor/pkg/certificates.LoadPublicKey", func(filename string, osw certificates.Oser) (*rsa.PublicKey, error) {
+		return thePub, nil
+	})
+	verifapi.Redirect("github.com/golang-jwt/jwt/v4.ParseWithClaims", func(tokenString string, claims jwt.Claims, keyFunc jwt.Keyfunc, options ...jwt.ParserOption) (*jwt.Token, error) {
+		if tokenString != "good" {
+			return nil, fmt.Errorf("signature is invalid")
+		}
+		rc := claims.(*jwt.RegisteredClaims)
+		rc.Audience = []string{"A"}
+		return &jwt.Token{Valid: true, Claims: claims}, nil
+	})
+	verifapi.FixRandom("unit0025", "unit0026", "unit0027")
+	target, err := wk.w.AllocateUnit("cmd", map[string]string{})
+	verifapi.Assert("target-unit-allocated", err == nil)
+	verifapi.Assert("stdout-written", os.WriteFile(target.UnitDir()+"/stdout", []byte("xy"), 0o600) == nil)
+	target.UpdateBasicStatus(WorkStateSucceeded, "done", 2)
+	sub := []string{"results", "cancel", "submit"}[verifapi.Choose(3)]
+	mk := func(sig string) map[string]interface{} {
+		cfg := map[string]interface{}{"command": "work", "subcommand": sub}
+		if sub == "submit" {
+			cfg["node"], cfg["worktype"] = "A", "cmd"
+		} else {
+			cfg["unitid"] = target.ID()
+			if sub == "results" {
+				cfg["startpos"] = float64(0)
+			}
+		}
+		if sig != "" {
+			cfg["signature"] = sig
+		}
+		return cfg
+	}
+	// first: an authorised command (Unix socket without token, or TCP with the good token)
+	var err1 error
+	if verifapi.Bool() {
+		_, err1 = wk.verifCommand(verifNewCFO("unix"), mk(""))
+	} else {
+		_, err1 = wk.verifCommand(verifNewCFO("tcp"), mk("good"))
+	}
+	verifapi.Quiesce()
+	_ = err1
+	unitsMid := len(wk.w.activeUnits)
+	opsMid := verifapi.FSOps()
+	// second: the same command over TCP with no token / a bad one
+	cfo := verifNewCFO("tcp")
+	_, err2 := wk.verifCommand(cfo, mk([]string{"", "bad"}[verifapi.Choose(2)]))
+	verifapi.Quiesce()
+	verifapi.Cover("second-command")
+	verifapi.Assert("later-unauthorised-command-refused", err2 != nil)
+	verifapi.Assert("later-unauthorised-command-has-no-effect", verifapi.All(len(wk.w.activeUnits) == unitsMid, verifapi.FSOps() == opsMid, len(*cfo.messages) == 0, len(*cfo.streamed) == 0))
+}
